@@ -47,6 +47,7 @@ def run(ck):
     _c02.r4(_alias(ck, "C05-R3e"))
     c04.r4_direction(ck, rule="C05-R3d")
     r6_every_file_saved(ck)
+    r7_refused_rename_puts_content_back(ck)
     r4(ck, par)
     r5(ck, main, cmd_push, seq, par)
 
@@ -79,6 +80,76 @@ def r6_every_file_saved(ck, rule="C05-R6"):
 
 
 # ---- R1 -----------------------------------------------------------------------------------------
+def _load_key(e):
+    """The name expression a record was fetched under: the second argument of the get_or_load call inside e (clone / borrow wrappers
+    peeled)."""
+    hits = [x for x in df.walk(e) if df.is_call(x, "ModifiedFiles::<'arena, 'config>::get_or_load")]
+    if len(hits) != 1:
+        return None
+    k = hits[0][2][1] if len(hits[0]) > 2 and len(hits[0][2]) > 1 else None
+    while isinstance(k, tuple) and k and ((k[0] in ("ref", "deref", "un") and isinstance(k[-1], tuple)) or
+                                          (k[0] == "call" and k[1].endswith(("::clone", "::deref", "::as_ref", "::borrow")) and len(k[2]) == 1)):
+        k = k[-1] if k[0] != "call" else k[2][0]
+    return k
+
+
+def r7_refused_rename_puts_content_back(ck, rule="C05-R7"):
+    """A rename that is refused (the new name is taken) returns Ok(false): the patch counts as not applied.  The content was already
+    taken out of the record of the file to patch (move_out); on the refused edge it has to be moved in again *into the record it was
+    taken from* - put under any other name, the old file is saved as deleted and the other one overwritten although nothing was
+    applied."""
+    fn = ck.anchor("apply_one_file_patch")
+    if fn is None:
+        return
+    outs = [(bb, t) for bb, t, c in calls_named(fn, "ModifiedFile::<'arena>::move_out")]
+    ins = [(bb, t) for bb, t, c in calls_named(fn, "ModifiedFile::<'arena>::move_in")]
+    ck.floor(rule, "move_out of the file to patch in apply_one_file_patch", len(outs), 1)
+    ck.floor(rule, "move_in calls in apply_one_file_patch", len(ins), 1)
+    if len(outs) != 1:
+        ck.require(not outs, rule, "one move_out", "%d move_out calls: which content travels is not decided" % len(outs), fn.where())
+        return
+    obb, ot = outs[0]
+    key_out = _load_key(df.operand_expr(fn, ot["args"][0]))
+    if not ck.require(key_out is not None, rule, "the record emptied is fetched by name", "the receiver of move_out is not a get_or_load result", fn.where(ot)):
+        return
+    tested = []
+    for bb, t in ins:
+        g = [x for x in guards.find_bool_guards(fn, lambda e, t=t: df.is_call(e, "ModifiedFile::<'arena>::move_in")) if cfg.dominates(fn, t["target"], x["bb"])
+             and not any(b2 != bb and cfg.dominates(fn, fn.blocks[b2]["term"]["target"], x["bb"]) and cfg.dominates(fn, t["target"], b2) for b2, _ in ins)]
+        if g:
+            tested.append((bb, t, g[0]))
+    if not ck.require(len(tested) >= 1, rule, "the move into the new name is tested", "no move_in result is branched on: an occupied new name is overwritten silently", fn.where()):
+        return
+    for bb, t, g in tested:
+        refused = g["false_edge"]
+        region = cfg.dominated_by_edge(fn, refused)
+        back = [(b2, t2) for b2, t2 in ins if b2 in region]
+        good = set()
+        for b2, t2 in back:
+            k = _load_key(df.operand_expr(fn, t2["args"][0]))
+            if ck.require(k is not None and k == key_out, rule, "content goes back to the record it was taken from",
+                          "after the refused rename the content taken from %s is moved into the record of %s: the file to patch is left empty (saved as deleted) "
+                          "and another file is overwritten by a patch that reports it did nothing" % (df.show(key_out, 60), df.show(k, 60)), fn.where(t2),
+                          ok_detail="move_in on get_or_load(%s)" % df.show(k, 50)):
+                good.add(b2)
+        # only the normal returns count: the `?` of the reload leaves with an error, which aborts the run before anything is saved
+        ok = all(cfg.must_pass(fn, refused[1], ex, good, after_src=False) or _is_error_exit(fn, refused[1], ex, good)
+                 for ex in cfg.exits(fn) if ex in cfg.reachable(fn, [refused[1]]))
+        ck.require(ok, rule, "every refused rename puts the content back before returning",
+                   "a path from the refused move_in to the return of apply_one_file_patch does not move the content back: the file to patch stays empty", fn.where(t))
+
+
+def _is_error_exit(fn, start, ex, good):
+    """The paths from start to ex that avoid `good` all run over the Err arm of a `?` (an error return: the run aborts, nothing is saved)."""
+    r = cfg.reachable(fn, [start], blocked=set(good))
+    if ex not in r:
+        return True
+    # block every Err-residual conversion: blocks calling FromResidual::from_residual
+    errs = {bb for bb, t in fn.terms() if t["k"] == "call" and "from_residual" in (callee_of(t).get("rpath") or callee_of(t).get("path") or "")}
+    r2 = cfg.reachable(fn, [start], blocked=set(good) | errs)
+    return ex not in r2
+
+
 def log_writers(ck):
     """Functions that open a file in append mode (the applied-patches log writer)."""
     out = set()
